@@ -51,4 +51,9 @@ CHECKS: dict[str, dict] = {
         "text": "Decides for every name hint and IR at once: the language of accepted name hints is included in the lexer's suffix-id language (with flags as compiled, Unicode-wide classes modelled); the image of extract_valid_name cannot collide with the names the printer generates ('<hint>_<n>', numbers, automatic bb<n> labels); the printer's identifier-or-string decision uses the lexer's own regex, which the lexer lexes as one token; the generic printer emits and the generic parser consumes the same sections in the same order; printing iterates no unordered collection; results of isolated-from-above ops are named in the enclosing scope and scopes are balanced. Round-trip of arbitrary verified modules, aliases and resource sections are not decided.",
         "note": "Trusted: re._parser's AST of the patterns; the abstraction of non-ASCII characters into four atoms (letter, digit, space, other); the printer's naming scheme shape (checked, ANALYSIS-ERROR if it changes).",
     },
+    "C07": {
+        "technique": _T + 'regular-language ambiguity analysis (ReDoS) on re._parser ASTs; guard / try-handler / declared-union partition classification of every raise, assert and partial-builtin site; sibling guard agreement',
+        "text": 'Decides for every input text: (a) no regex of the lexers/parsers has a starred group with an ambiguous inner repeat before a failable continuation (exponential backtracking); (b) the lexer dispatches to number lexing only on ASCII digits; (c) every explicit non-diagnostic raise, assert and partial builtin (int, float, to_bytes, decode, fromhex, zip strict, next, index) in xdsl/parser/*.py and the lexers is guarded by a validity test on the same value (evaluated over the declared union type where known), enclosed in a try converting it to a diagnostic, or is a reviewed internal invariant with its reason; (d) sibling sites that do the same action carry the same guard (name hints, _consume_token kinds, integer range validation, STRING_LIT classification before decoding, affine operators); (e) look-ahead characters are used as strings only under a bounds guard. Implicit KeyError/IndexError/TypeError of arbitrary subscripts and calls, dialect-defined parse methods and non-regex running time are not decided.',
+        "note": 'Trusted: the table of partial builtins and the exceptions they raise; the reviewed-invariant table in xsa/rules/c07.py (27 sites, one line of reason each); raise_error/emit_error raise diagnostics only.',
+    },
 }
